@@ -330,6 +330,9 @@ Exec(P, s, st) ==
                      r == Block(P, body, inner)
                      out == [r.st EXCEPT !.env = SubSeq(r.st.env, 1, Len(v.st.env))]
                  IN IF r.sig = "norm" THEN Norm(Void, out) ELSE R(r.v, out, r.sig, r.lab)
+      \* a local type declaration (a struct / enum / distinct named inside a function body) has no
+      \* run-time effect
+      [] s.s = "typedecl" -> Norm(Void, st)
       [] s.s = "break" -> LET r == Eval(P, s.x, st) IN IF r.sig # "norm" THEN r ELSE R(r.v, r.st, "brk", s.label)
       [] s.s = "continue" -> R(Void, st, "cont", s.label)
       [] s.s = "return" -> LET r == Eval(P, s.x, st) IN IF r.sig # "norm" THEN r ELSE R(r.v, r.st, "ret", "")
